@@ -43,6 +43,14 @@ func (w *tw) nodes(ns []Node, depth int) {
 			w.loop(n.Loop, depth)
 		case n.Probe != nil:
 			w.probe(n.Probe)
+		case n.List != nil:
+			slot := "sp"
+			if n.List.Destr {
+				slot = "{ item, index, note }"
+			}
+			w.sb.WriteString(`<template include="list.vuego" :items="` + n.List.Items + `"><template v-slot="` + slot + `">`)
+			w.probe(&n.List.Content)
+			w.sb.WriteString(`</template></template>`)
 		case n.Set != nil:
 			t := `<template ` + n.Set.Name + `="` + n.Set.Val + `"></template>`
 			if n.Set.If != nil {
